@@ -22,7 +22,7 @@ TRUSTED_BASE = [
 ASSUMPTIONS = [
     "input bytes are < 256 (C++ char); reader positions are modelled as suffixes of the immutable input, mStartPos as the suffix at the first member",
     "documents of the theorems: every value the reference decoder accepts whose maps (at every depth) have keys of the supported kinds (string, integer, float, double, timestamp 32/64/96), pairwise different under the library's key equality; timestamp 96 is read in the library's field order (known finding F08 of C06/C07)",
-    "requests from inside a VisitKeys callback (history item E: the i-th action under the i-th visited key, what SerializeMapImpl does): the callback's key is modelled as the code has it, a REFERENCE to the scope's key slot (find_value_by_key_ref); the refinement theorem covers them on documents without NaN keys (T_C03_mp_refines_outside); on documents with a NaN key the specification is refuted (T_C03_mp_refines_refuted, known finding M01): there the implementation is compared with the model only and the judge reports the class as KNOWN",
+    "requests from inside a VisitKeys callback (history item E: the i-th action under the i-th visited key, what SerializeMapImpl does): the callback gets a copy of the visited key (d346324; known finding M01, fixed), so the request is the ordinary keyed one; NaN keys are inside the theorem and the judged domain",
     "the reader's mCloseScopeFailed flag (8d03f7f) is observed directly for kinds m, s (IsCloseScopeFailed() after the root scope is gone) and through MsgPackReadRootScope::Finalize() for kinds M, S, called after an error-free history as LoadObject does; after an exception the flag is not observed (LoadObject does not call Finalize() then)",
     "request keys are passed as std::string, uint64_t, int64_t, float, double or CBinTimestamp; targets are the ReadValue overloads (bool, char, (u)int8..64, nullptr_t, float, double, string_view, CBinTimestamp); container targets of the archive layer (vector, map, tuple, classes) reach the scopes through exactly these calls but are not themselves part of this check (C18/C17 own the archive layer)",
     "after an exception thrown from inside a value by a typed read the reader position is not determined by the model; the unwinding destructors cannot throw (all their reads stand inside try/catch since 0863f96 / 49f9936 / 3580349), so the answer is the exception in every case and TERMINATE never agrees with the model",
@@ -239,7 +239,7 @@ def parse_history(s):
                 nd["n"] = int(f[1])
             elif f[0] == "x":
                 nd["tg"] = f[1]
-            if f[0] in "OAoaEc":
+            if f[0] in "OAoaEct":
                 assert toks[pos[0]] == "("
                 pos[0] += 1
                 nd["body"] = items()
@@ -272,7 +272,7 @@ def fmt_history(items):
                 out.append("x:" + nd["tg"])
             else:
                 out.append(k)
-            if k in "OAoaEc":
+            if k in "OAoaEct":
                 out.append("(")
                 go(nd["body"])
                 out.append(")")
@@ -289,7 +289,7 @@ class Eval:
         self.pol = pol
         self.toks = []
         self.partial = False     # an array / byte-array child was left with elements unread (class of F14)
-        self.ref_alias = False   # a keyed request from a VisitKeys callback under a key that does not equal itself (class of M01)
+        self.nested_range = False   # an OutOfRange raised INSIDE a guarded request (not the array's own exhaustion): class of M02
 
     def lookup(self, kvs, key):
         for k, v in kvs:
@@ -372,8 +372,6 @@ class Eval:
             return
         if a == "x":
             raise Stop(act["tg"])
-        if not key_eq(kk, kk):
-            self.ref_alias = True
         found, v = self.lookup(kvs, kk)
         if a == "g":
             self.toks.append(typed(self.pol, act["tg"], v) if found else "F")
@@ -416,6 +414,21 @@ class Eval:
             k = nd["k"]
             if k == "e":
                 self.toks.append("E1" if not vs else "E0")
+                continue
+            if k == "x":
+                raise Stop(nd["tg"])
+            if k == "t":
+                # try { item } catch (OutOfRange): the property = only the array's own "no more items" is caught
+                inner = nd["body"][0]
+                if not vs and inner["k"] in "goab":
+                    self.toks.append("C")
+                    continue
+                try:
+                    vs = self.arr(vs, [inner])
+                except Stop as st:
+                    if st.cat == "R":
+                        self.nested_range = True
+                    raise
                 continue
             if not vs:
                 raise Stop("R")
@@ -526,17 +539,17 @@ def same(a, b, line=None):
     return False
 
 
-# known finding M01 (T_C03_mp_refines_refuted): VisitKeys gives the callback a REFERENCE to the scope's key slot.
-# Class: a keyed request made from the callback under a visited key that does not equal itself (NaN float / double):
-# the search it starts overwrites the slot, the next key of that kind matches itself, another member is loaded
-# under the NaN key and the enumeration goes on from there.  The class is excused only while the finding is listed
-# as `known` (known_findings.jsonl; the built-in entry stands in until the coordinator has recorded it).
-M01 = dict(status="known", property="C03", id="M01", driver=DRIVER,
-           case="hist m SS 82ca7fc0000001ca3f80000002 E,(,g:s32,g:s32,)", implementation="(,T+2,) END 13 ERR:P CF0",
-           what="VisitKeys passes the callback a reference to the scope's own key slot: a keyed load under a NaN float/double key "
-                "(what SerializeMapImpl does for std::map<float,...>) searches on, ReadKey overwrites the slot, the next key of the "
-                "same kind equals itself: {NaN:1, 1.0f:2} loads 2 under the NaN key and the enumeration ends (T_C03_mp_refines_refuted). "
-                "Class: request from inside a VisitKeys callback under a key that does not equal itself")
+# known finding M02: SerializeArray(std::tuple) catches EVERY OutOfRange raised while its components load — also the one a
+# nested fixed-size array raises for a count mismatch (or anything else further inside) — and, under the Skip policy, goes on
+# (under Throw it reports MismatchedTypes "array shorter than the tuple").  The specification (MpScopeSpec.v, ATry) lets a
+# guarded request catch only the array's own "no more items".  Class: an OutOfRange raised inside a guarded request other than
+# the exhaustion of the array the request is made on.  Excused only while listed as `known` (the built-in entry stands in until
+# the coordinator has recorded it).
+M02 = dict(status="known", property="C03", id="M02", driver=DRIVER,
+           case="ahist m SS 92910105 t,(,a,(,g:s32,e,x:R,),),g:s32,e", implementation="(,(,T+1,E1,C,T+5,E1,) END 4 ERR:P CF0",
+           what="try { component } catch (OutOfRange) of the tuple loader also swallows an OutOfRange raised INSIDE the component "
+                "(e.g. the count mismatch of a nested std::array): the load goes on under Skip / reports MismatchedTypes under Throw. "
+                "Class: OutOfRange raised inside a guarded request other than the exhaustion of the array itself")
 ACTIVE_KNOWN = set()
 
 
@@ -559,8 +572,8 @@ def judge(line, impl):
         return "UNKNOWN", "data after the document is ill-formed"
     if impl == exp:
         return "HOLD", "as the association-list evaluation"
-    if ev.ref_alias and "M01" in ACTIVE_KNOWN:
-        return "KNOWN", "class of known finding M01 (callback key by reference, NaN key); the association-list evaluation expects: %s" % exp
+    if ev.nested_range and "M02" in ACTIVE_KNOWN:
+        return "KNOWN", "class of known finding M02 (OutOfRange from inside a guarded request is swallowed); the association-list evaluation expects: %s" % exp
     return "FAIL", "the association-list evaluation expects: %s" % exp
 
 
@@ -694,9 +707,14 @@ def arr_history(rng, vs, depth, budget):
             items.append({"k": rng.choice("oa"), "body": []})
         else:
             items.append({"k": "g", "tg": target_for(rng, v)})
+        # try { item } catch (OutOfRange): mostly around requests beyond the end (what the tuple loader meets on a short array)
+        if items[-1]["k"] in "goab" and rng.random() < (0.6 if v is None else 0.08):
+            items[-1] = {"k": "t", "body": [items[-1]]}
         i += 1
         if rng.random() < 0.1:
             items.append({"k": "e"})
+        if rng.random() < 0.01:
+            items.append({"k": "x", "tg": rng.choice("RRM")})    # the caller throws (fixed-size array: count mismatch)
     if full and rng.random() < 0.5:
         items.append({"k": "e"})
     return items
@@ -902,6 +920,8 @@ def features(line):
         f.append("visit")
     if "E" in h.split(","):
         f.append("each")
+    if "t" in h.split(","):
+        f.append("try")
     return " ".join(f)
 
 
@@ -910,30 +930,13 @@ def spec_line(line):
     return " ".join([("spec" if t[0] == "hist" else "aspec")] + t[1:])
 
 
-def keys_refl(v):
-    """every map key at every depth equals itself (keys_refl of MpScopeSpec.v)"""
-    if isinstance(v, list):
-        return all(keys_refl(x) for x in v)
-    if isinstance(v, tuple) and v[0] == "map":
-        for k, x in v[1]:
-            kk = key_of_value(k)
-            if kk is not None and not key_eq(kk, kk):
-                return False
-            if not keys_refl(x):
-                return False
-    return True
-
-
-def inside_theorems(line):
-    """hypothesis of T_C03_mp_refines_outside: no request from inside a VisitKeys callback, or no NaN key"""
-    t = line.split(" ")
-    if "E" not in t[4].split(","):
-        return True
+def inside_spec(line):
+    """not in the class of M02 (there the specification reports an error the model, like the code, swallows)"""
     try:
-        v, _ = M.dec_value(bytes.fromhex(t[3]) if t[3] != "-" else b"")
-    except (M.Bad, RecursionError):
-        return False
-    return keys_refl(v)
+        _, ev = expected(line)
+        return not ev.nested_range
+    except Exception:
+        return True
 
 
 def spec_vs_model(line, m, sp):
@@ -957,8 +960,8 @@ def spec_vs_model(line, m, sp):
 
 def known_entries(vlib):
     kn = [k for k in vlib.load_known("C03") if k.get("driver", DRIVER) == DRIVER]
-    if not any(k.get("id") == "M01" for k in kn):
-        kn.append(M01)
+    if not any(k.get("id") == "M02" for k in kn):
+        kn.append(M02)
     kn = [k for k in kn if k.get("status") == "known"]
     ACTIVE_KNOWN.clear()
     ACTIVE_KNOWN.update(k["id"] for k in kn)
@@ -1004,7 +1007,7 @@ def run(ctx, vlib):
 
     # the statement of the theorems, tested on the extracted model and specification
     nsv = 0
-    sv = [c for c in wf if c.split(" ")[1] == "m" and inside_theorems(c)]
+    sv = [c for c in wf if c.split(" ")[1] == "m" and inside_spec(c)]
     osv = vlib.run_driver(model, [spec_line(c) for c in sv])
     mans = dict(zip(cases, om))
     for c, sp in zip(sv, osv):
